@@ -40,8 +40,9 @@ INTENDED = {
                      'main cue triple'),
     'set_sample_count': ('track_data+beat_data', {'samples'}, 'sample count is stored in both blobs'),
     'set_sample_rate': ('track_data+beat_data', {'sample_rate'}, 'sample rate is stored in both blobs'),
-    'set_waveform': ('overview_waveform_data', {'*'}, 'the whole overview waveform blob is the waveform '
-                     '(its decoder requires the exact length, so a decoded blob has empty extra_data)'),
+    'set_waveform': ('overview_waveform_data', {'samples_per_waveform_point', 'waveform_points', 'maximum_point'},
+                     'the points, their maximum and the samples-per-point value are the waveform; trailing data '
+                     'the decoder accepts is not'),
 }
 
 
